@@ -19,6 +19,84 @@ ALIAS_FUNCS = ("::transaction", "::commit", "::begin_transaction", "::end_transa
 PAIR_FLOOR = 25
 
 
+def closure_bodies_passed(fa, b, t):
+    """Closure bodies passed (directly) as an argument to call t in body b."""
+    out = []
+    for a in t["a"]:
+        pl = cfg.op_place(a)
+        if not pl:
+            continue
+        r0 = cfg.origin(b, pl)[0]
+        for d in cfg.defs(b).get(r0, []):
+            if d[0] == "assign" and d[2]["k"] == "agg" and d[2].get("what") in ("closure", "coroutine_closure"):
+                cb = fa.body(d[2]["def"])
+                if cb:
+                    out.append(cb)
+    return out
+
+
+def reject_guards(fa, b, call_pred=None, bin_pred=None):
+    """Permitting edges of `reject-if-true` tests in body b.
+    A test is (a) a call whose callee satisfies call_pred (bool result: permitting = false edge),
+    (b) a binary comparison satisfying bin_pred(stmt) (permitting = false edge),
+    (c) a call that receives a closure whose body contains (a) or (b): bool result -> false edge,
+        Result/Option result -> the Ok edge of its `?`.
+    Returns list of (description, edge)."""
+    edges = []
+
+    def body_has_test(cb):
+        if call_pred:
+            for i, t in cfg.calls(cb):
+                if call_pred(cfg.callee(t) or "", t, cb):
+                    return True
+        if bin_pred:
+            for bi, s in cfg.assigns(cb):
+                if s["r"]["k"] == "bin" and bin_pred(s, cb):
+                    return True
+        return False
+    for i, t in cfg.calls(b):
+        n = cfg.callee(t) or ""
+        direct = bool(call_pred and call_pred(n, t, b))
+        via = (not direct) and any(body_has_test(cb) for cb in closure_bodies_passed(fa, b, t))
+        if not (direct or via):
+            continue
+        d = t["d"][0]
+        der = cfg.derived_locals(b, [d])
+        if b.local_ty(d) == "bool":
+            for sw in cfg.bool_switches(b, der):
+                edges.append(("%s@%s" % (n.split("::")[-1], b.loc(i)), sw["false_edge"]))
+        else:
+            for te in cfg.try_edges(b, der):
+                if te["ok_edge"]:
+                    edges.append(("%s?@%s" % (n.split("::")[-1], b.loc(i)), te["ok_edge"]))
+    if bin_pred:
+        for bi, s in cfg.assigns(b):
+            if s["r"]["k"] == "bin" and len(s["l"]) == 1 and bin_pred(s, b):
+                for sw in cfg.bool_switches(b, cfg.derived_locals(b, [s["l"][0]])):
+                    edges.append(("%s@%s:%d" % (s["r"]["op"], b.file, s.get("ln", 0)), sw["false_edge"]))
+    return edges
+
+
+def guarded_by(b, site, edges):
+    """First guard edge whose removal makes `site` unreachable from the entry, else None."""
+    for desc, e in edges:
+        if cfg.find_path(b, [0], [site], removed_edges=[e]) is None:
+            return desc
+    return None
+
+
+def callers_of(fa, name, crate=None):
+    """[(body, bb, term)] of calls whose normalised callee is `name`."""
+    out = []
+    for cb in fa.bodies.values():
+        if crate and cb.crate != crate:
+            continue
+        for j, tj in cfg.calls(cb):
+            if norm(cfg.callee(tj) or "") == name:
+                out.append((cb, j, tj))
+    return out
+
+
 def bracketing_functions(fa):
     out = []
     for b in fa.bodies.values():
